@@ -26,7 +26,8 @@ def run(ctx):
     if r.violated:
         ctx.violation("C09/spec-W7c", f"specification violates {r.violated}", {"tlc": r.trace})
     sim = 3000 if thorough else 600
-    suite = [("W7", 3, None, None), ("W7c", 4, None, 8000), ("W7c", 7, sim, None), ("W7r", 6, sim, None), ("W7", 6, sim, None)]
+    suite = [("W7", 3, None, None), ("W7c", 4, None, 8000), ("W7c", 7, sim, None), ("W7r", 6, sim, None), ("W7", 6, sim, None),
+             ("W7d", 5, None, 8000), ("W7d", 7, sim, None), ("W9b", 4, None, 6000)]
     if thorough:
         suite += [("W7", 4, None, 60000), ("W7c", 5, None, 60000)]
     hotcommon.run_suite(ctx, suite, hotcommon.classify_other("C09"))
